@@ -29,6 +29,7 @@ import warnings
 import attr
 
 from props.common import *  # noqa: F401,F403
+from props.builder_route import check_builder_routes, check_builder_calls
 
 import demes.demes as dd
 
@@ -1227,17 +1228,24 @@ def run(ctx):
     # ---- (a) (b) (d): documents
     t_end = ctx.budget - ctx.time_left() + t_docs
     ndocs = 0
+    route_docs = []
     while ctx.budget - ctx.time_left() < t_end and ctx.time_left() > 15:
         rng = random.Random(ctx.rng.getrandbits(48))
         for doc, kind, tags in documents_for(ctx, rng):
             for entry in ("fromdict", "builder"):
                 check_document(ctx, doc, rng, entry, tags, {"kind": kind}, model_reqs)
+            if kind == "valid" or kind.startswith("corrupted:"):
+                route_docs.append(doc)        # valid and corrupted documents entered through Builder calls
+        if len(route_docs) > 200:
+            check_builder_routes(ctx, route_docs, tag="builder_route")
+            route_docs = []
         # (e) shared default objects
         check_shared_defaults(ctx, with_shared_defaults(rng), rng, {})
         ndocs += 1
         if len(model_reqs) > 400:
             flush_model(ctx, model_reqs)
     flush_model(ctx, model_reqs)
+    check_builder_routes(ctx, route_docs, tag="builder_route")
     # a few fixed boundary documents: deep nesting, cyclic metadata, non-dict input
     for doc, kind in boundary_documents():
         for entry in ("fromdict", "builder"):
@@ -1254,6 +1262,8 @@ def run(ctx):
         if len(model_reqs) > 400:
             flush_model(ctx, model_reqs)
     flush_model(ctx, model_reqs)
+    # ---- (c') histories of Builder API calls vs the Model's Builder (data after every call, every resolve)
+    check_builder_calls(ctx, 150 if quick else 1500, tag="builder_history")
     # ---- (h) heap model vs CPython
     copy_reqs, script_reqs = [], []
     for objs in exhaustive_heaps(2):
